@@ -25,8 +25,9 @@ BLOCKING = ('thread::sleep', 'JoinHandle::join', 'Receiver::recv', 'Receiver::re
 
 
 def market_fns(F):
+    spliced = set(c for v in F.desugared.values() for c in v)   # closures that now live inside their caller (A12)
     return [b for b in F.bodies.values()
-            if b.path.startswith('job_market::') or b.path.startswith('<job_market::')]
+            if (b.path.startswith('job_market::') or b.path.startswith('<job_market::')) and b.path not in spliced]
 
 
 class Guard:
@@ -215,7 +216,10 @@ def r3_r4_r5_pop(ctx, F):
         v = b.val(st['rv']['op']) if st['rv']['k'] == 'use' else None
         if v is None:
             continue
-        if v.kind == 'call' and b.call_at(v.key) in dec:
+        vd = b.trace(v, ('Option::unwrap_or', 'Option::unwrap', 'Option::unwrap_or_default', 'Option::expect'))
+        if vd.kind == 'call' and b.call_at(vd.key) in dec:
+            dec_stores.append(i)
+        elif noref(v).kind == 'bin' and noref(v).key[0] in ('SubWithOverflow', 'Sub', 'SubUnchecked'):
             dec_stores.append(i)
         v2 = noref(v)
         if v2.kind == 'bin' and v2.key[0] in ('AddWithOverflow', 'Add'):
